@@ -36,25 +36,47 @@ package gengorums
 //@ func gengorums.validateOptions
 //@   props C16
 //@   requires method != nil
+//@   opt unroll=4
 //@   on call "method.Desc.IsStreamingClient"
 //@     after assume res0 == clientStream(method.Desc)
 //@   on call "method.Desc.IsStreamingServer"
 //@     after assume res0 == serverStream(method.Desc)
-//@   ensures[C16.illegal] hasOpt(method, gorums.E_Async) && !hasOpt(method, gorums.E_Quorumcall) ==> result != nil
-//@   ensures[C16.illegal] clientStream(method.Desc) && !hasOpt(method, gorums.E_Multicast) ==> result != nil
-//@   ensures[C16.illegal] serverStream(method.Desc) && !hasOpt(method, gorums.E_Correctable) ==> result != nil
-//@   ensures[C16.illegal] hasOpt(method, gorums.E_Correctable) && clientStream(method.Desc) ==> result != nil
-//@   ensures[C16.exclusive] hasOpt(method, gorums.E_Quorumcall) && (hasOpt(method, gorums.E_Correctable) || hasOpt(method, gorums.E_Multicast) || hasOpt(method, gorums.E_Unicast)) ==> result != nil
-//@   ensures[C16.exclusive] hasOpt(method, gorums.E_Correctable) && (hasOpt(method, gorums.E_Multicast) || hasOpt(method, gorums.E_Unicast)) ==> result != nil
-//@   ensures[C16.exclusive] hasOpt(method, gorums.E_Multicast) && hasOpt(method, gorums.E_Unicast) ==> result != nil
-//@   ensures[C16.illegal] hasOpt(method, gorums.E_Correctable) && hasOpt(method, gorums.E_Async) ==> result != nil
-//@   ensures[C16.legal] !clientStream(method.Desc) && !serverStream(method.Desc) && !hasOpt(method, gorums.E_Async) && \
-//@       !hasOpt(method, gorums.E_Correctable) && !hasOpt(method, gorums.E_Multicast) && !hasOpt(method, gorums.E_Unicast) ==> result == nil
-//@   ensures[C16.legal] !clientStream(method.Desc) && !serverStream(method.Desc) && hasOpt(method, gorums.E_Quorumcall) && \
-//@       !hasOpt(method, gorums.E_Correctable) && !hasOpt(method, gorums.E_Multicast) && !hasOpt(method, gorums.E_Unicast) ==> result == nil
-//@   ensures[C16.legal] !clientStream(method.Desc) && hasOpt(method, gorums.E_Correctable) && !hasOpt(method, gorums.E_Async) && \
-//@       !hasOpt(method, gorums.E_Quorumcall) && !hasOpt(method, gorums.E_Multicast) && !hasOpt(method, gorums.E_Unicast) ==> result == nil
-//@   ensures[C16.legal] !serverStream(method.Desc) && hasOpt(method, gorums.E_Multicast) && !hasOpt(method, gorums.E_Async) && \
-//@       !hasOpt(method, gorums.E_Quorumcall) && !hasOpt(method, gorums.E_Correctable) && !hasOpt(method, gorums.E_Unicast) ==> result == nil
-//@   ensures[C16.legal] !clientStream(method.Desc) && !serverStream(method.Desc) && hasOpt(method, gorums.E_Unicast) && !hasOpt(method, gorums.E_Async) && \
-//@       !hasOpt(method, gorums.E_Quorumcall) && !hasOpt(method, gorums.E_Correctable) && !hasOpt(method, gorums.E_Multicast) ==> result == nil
+//@   ensures[C16.illegal] (hasOpt(method, gorums.E_Async) && !hasOpt(method, gorums.E_Quorumcall) ==> result != nil) && \
+//@       (clientStream(method.Desc) && !hasOpt(method, gorums.E_Multicast) ==> result != nil) && \
+//@       (serverStream(method.Desc) && !hasOpt(method, gorums.E_Correctable) ==> result != nil) && \
+//@       (hasOpt(method, gorums.E_Correctable) && clientStream(method.Desc) ==> result != nil) && \
+//@       (hasOpt(method, gorums.E_Correctable) && hasOpt(method, gorums.E_Async) ==> result != nil)
+//@   ensures[C16.exclusive] (hasOpt(method, gorums.E_Quorumcall) && (hasOpt(method, gorums.E_Correctable) || hasOpt(method, gorums.E_Multicast) || hasOpt(method, gorums.E_Unicast)) ==> result != nil) && \
+//@       (hasOpt(method, gorums.E_Correctable) && (hasOpt(method, gorums.E_Multicast) || hasOpt(method, gorums.E_Unicast)) ==> result != nil) && \
+//@       (hasOpt(method, gorums.E_Multicast) && hasOpt(method, gorums.E_Unicast) ==> result != nil)
+//@   ensures[C16.legal] (!clientStream(method.Desc) && !serverStream(method.Desc) && !hasOpt(method, gorums.E_Async) && \
+//@       !hasOpt(method, gorums.E_Correctable) && !hasOpt(method, gorums.E_Multicast) && !hasOpt(method, gorums.E_Unicast) ==> result == nil) && \
+//@       (!clientStream(method.Desc) && !serverStream(method.Desc) && hasOpt(method, gorums.E_Quorumcall) && \
+//@       !hasOpt(method, gorums.E_Correctable) && !hasOpt(method, gorums.E_Multicast) && !hasOpt(method, gorums.E_Unicast) ==> result == nil) && \
+//@       (!clientStream(method.Desc) && hasOpt(method, gorums.E_Correctable) && !hasOpt(method, gorums.E_Async) && \
+//@       !hasOpt(method, gorums.E_Quorumcall) && !hasOpt(method, gorums.E_Multicast) && !hasOpt(method, gorums.E_Unicast) ==> result == nil) && \
+//@       (!serverStream(method.Desc) && hasOpt(method, gorums.E_Multicast) && !hasOpt(method, gorums.E_Async) && \
+//@       !hasOpt(method, gorums.E_Quorumcall) && !hasOpt(method, gorums.E_Correctable) && !hasOpt(method, gorums.E_Unicast) ==> result == nil) && \
+//@       (!clientStream(method.Desc) && !serverStream(method.Desc) && hasOpt(method, gorums.E_Unicast) && !hasOpt(method, gorums.E_Async) && \
+//@       !hasOpt(method, gorums.E_Quorumcall) && !hasOpt(method, gorums.E_Correctable) && !hasOpt(method, gorums.E_Multicast) ==> result == nil)
+
+// Every method is validated before anything is emitted for it, and a validation error
+// never leads to emission (log.Fatal does not return).
+//@ func gengorums.genGorumsMethods
+//@   props C16
+//@   requires forall(i, 0, len(data.Services), data.Services[i] != nil && forall(j, 0, len(data.Services[i].Methods), data.Services[i].Methods[j] != nil))
+//@   ghost pendErr Bool = false
+//@   ghost validated Int = 0
+//@   loop "for _, service := range data.Services"
+//@     invariant !pendErr
+//@   loop "for _, method := range service.Methods"
+//@     invariant !pendErr
+//@   on call "validateOptions"
+//@     after set pendErr = res0 != nil
+//@     after set validated = arg0
+//@   on call "log.Fatal"
+//@     after set pendErr = false
+//@   on call "callTypeInfo.deriveCallType"
+//@     assert[C16.validated] !pendErr && validated == arg0
+//@   on call "mustExecute"
+//@     assert[C16.validated] !pendErr
